@@ -455,7 +455,7 @@ package commitlog
 //@ func (*commitLog).SetHighWatermark serves C03, C02
 //@   requires l != nil
 //@   ensures [monotone] l.hw == (hw > old(l.hw) ? hw : old(l.hw))
-//@ func (*commitLog).HighWatermark serves C03
+//@ func (*commitLog).HighWatermark serves C03, C01
 //@   requires l != nil
 //@   modifies nothing
 //@   ensures result == l.hw
@@ -645,22 +645,25 @@ package commitlog
 // committedReader.Read, reader parked beyond the watermark: after the watermark moved, reading resumes at the
 // message after the OLD watermark - in the segment that holds it, at that message's entry - so nothing that
 // became committed is skipped; the reader's watermark only moves forward.
-//@ func (*committedReader).Read serves C03
+//@ func (*committedReader).Read serves C03, C01
 //@   requires r != nil && r.cl != nil
 //@   call (*segment).findEntry requires [resumes-after-old-hw] arg1 == old(r.hw) + 1
 //@   call (*segment).findEntry requires [in-the-segment-holding-it] forall k int :: 0 <= k && k < len(segments) && nextOf(segments[k]) > old(r.hw) + 1 && (forall i int :: 0 <= i && i < k ==> nextOf(segments[i]) <= old(r.hw) + 1) ==> arg0 == segments[k]
 //@   call getHWPos requires [limit-at-current-hw] arg1 == r.hw
-//@ func (*segment).ReadAt serves C03
+//@ func (*segment).ReadAt serves C03, C01
 //@   returns (n, err)
 //@   requires s != nil
 //@   assumes s.log != nil && fileSize(s.log) == s.position
 //@   ensures 0 <= n && n <= len(p)
 //@   ensures [no-end-of-file-within-the-log] off >= 0 && off + len(p) <= old(s.position) ==> err != io.EOF
 // readLoop: in the watermark's segment a read never extends beyond the watermark's byte position
-//@ func min serves C03
+//@ func min serves C03, C01
 //@   modifies nothing
 //@   ensures result == (x < y ? x : y)
-//@ func (*committedReader).readLoop serves C03
+// (the caller, readMessage, ignores the byte count: a read that returns no error must have filled the buffer)
+//@ func (*committedReader).readLoop serves C03, C01
+//@   returns (n, err)
+//@   ensures [a-read-fills-the-buffer-or-fails] err == nil ==> n == len(p)
 //@   requires r != nil && r.cl != nil && r.seg != nil
 //@   assumes r.pos >= 0 && (r.hwSeg != nil ==> r.hwPos <= r.hwSeg.position)
 //@   loop 1 invariant n >= 0 && r.seg != nil && r.pos >= 0 && (r.hwSeg != nil ==> r.hwPos <= r.hwSeg.position)
@@ -809,7 +812,7 @@ package commitlog
 
 // getHWPos: the byte position up to which a committed reader may read in the watermark's segment - it covers every
 // entry at or below the watermark and no entry above it (also when the message at the watermark itself is gone)
-//@ func getHWPos serves C03
+//@ func getHWPos serves C03, C01
 //@   returns (idx, pos, err)
 //@   assumes forall i int :: 0 <= i && i < len(segments) ==> segments[i] != nil && segments[i].Index != nil && segments[i].Index.position >= 0
 //@   assumes forall i int, j int :: 0 <= i && i < j && j < len(segments) ==> nextOf(segments[i]) <= nextOf(segments[j])
